@@ -85,6 +85,8 @@ func c04Setup() {
 		mk("leaf", 6, 100, 76, true, "-", ca1, true)
 		mk("leafski", 12, 101, 71, true, "-", ca1, true)
 		mk("leafname", 13, 7, 79, true, "-", ca1, true)
+		// an end-entity that carries CA:TRUE and cRLSign (a sub-CA certificate presented as client certificate), named like the issuer
+		mk("leafca", 14, 7, 80, true, "1", ca1, false)
 		mk("stranger", 9, 7, 71, true, "1", nil, false) // a key nobody presents, claiming name 7 and ski 71
 	})
 }
@@ -143,7 +145,7 @@ func c04Matrix(r *Run) {
 	if r.Thorough() {
 		n = 6000
 	}
-	signers := []string{"ca1", "ca1", "ca1", "ca2", "ca3", "canocrl", "canoku", "carsa", "t9", "t7", "leaf", "leafski", "leafname", "stranger"}
+	signers := []string{"ca1", "ca1", "ca1", "ca2", "ca3", "canocrl", "canoku", "carsa", "t9", "t7", "leaf", "leafski", "leafname", "leafca", "stranger"}
 	chainShapes := [][][]string{{{"L", "ca1"}}, {{"L", "ca1"}}, {{"L", "ca2"}}, {{"L", "canocrl"}}, {{"L", "canoku"}}, {{"L", "carsa"}},
 		{{"L", "ca1"}, {"L", "ca2"}}, {{"L"}}, {{"L", "ca1", "ca3"}}, {{"L", "ca3"}}}
 	trustedSets := [][]string{nil, nil, {"t9"}, {"t7"}, {"ca3"}, {"ca2"}, {"stranger"}}
@@ -169,6 +171,11 @@ func c04Matrix(r *Run) {
 	cases = append(cases, c04Case{Issuer: 7, AKI: nArg, AKIDer: nDer, Signer: "t9", Chains: [][]string{{"L", "ca1"}}, Trusted: []string{"t9"}, Leaf: "leaf"})
 	c04NoSerial = func() bool { return rng.Intn(6) == 0 }
 	cases = append(cases, c04Case{Issuer: 7, AKI: "kid=-;ser=-;iss=-", AKIDer: derSeq(), Signer: "ca1", Chains: [][]string{{"L", "ca1"}}, Leaf: "leaf"})
+	// the presented certificate is itself a CA certificate and signs the CRL fetched for it: still the end-entity of the chain
+	k80, k80Der := c04AKI(80, nil, false)
+	cases = append(cases, c04Case{Issuer: 7, AKI: "-", Signer: "leafca", Chains: [][]string{{"L", "ca1"}}, Leaf: "leafca"})
+	cases = append(cases, c04Case{Issuer: 7, AKI: k80, AKIDer: k80Der, Signer: "leafca", Chains: [][]string{{"L", "ca1"}}, Leaf: "leafca"})
+	cases = append(cases, c04Case{Issuer: 7, AKI: "-", Signer: "leafca", Chains: [][]string{{"L"}}, Leaf: "leafca"})
 	k76, k76Der := c04AKI(76, nil, false)
 	cases = append(cases, c04Case{Issuer: 100, AKI: k76, AKIDer: k76Der, Signer: "leaf", Chains: [][]string{{"L"}}, Leaf: "leaf"})
 	cases = append(cases, c04Case{Issuer: 100, AKI: "-", Signer: "leaf", Chains: [][]string{{"L"}}, Leaf: "leaf"})
@@ -177,7 +184,7 @@ func c04Matrix(r *Run) {
 	for len(cases) < n {
 		c := c04Case{Issuer: []int{7, 7, 7, 8, 9, 10}[rng.Intn(6)], Signer: signers[rng.Intn(len(signers))],
 			Chains: chainShapes[rng.Intn(len(chainShapes))], Trusted: trustedSets[rng.Intn(len(trustedSets))],
-			Leaf: []string{"leaf", "leaf", "leafski", "leafname"}[rng.Intn(4)]}
+			Leaf: []string{"leaf", "leaf", "leafski", "leafname", "leafca"}[rng.Intn(5)]}
 		switch rng.Intn(6) {
 		case 0, 1:
 			c.AKI = "-"
@@ -277,7 +284,7 @@ func c04Matrix(r *Run) {
 		// presented chains: "L" is the end-entity of the case, re-issued with this case's CDP
 		leafT := c04Certs[c.Leaf]
 		leafCA := &CA{Cert: c04Certs["ca1"].Cert, Key: c04Certs["ca1"].Signer}
-		lo := LeafOpts{CN: leafT.Cert.Subject.CommonName, CDP: []string{origin.URL(path)}, Key: leafT.Signer, Serial: big.NewInt(int64(900000 + i)), NoKU: leafT.KU == "-", RawSub: leafT.Cert.RawSubject}
+		lo := LeafOpts{CN: leafT.Cert.Subject.CommonName, CDP: []string{origin.URL(path)}, Key: leafT.Signer, Serial: big.NewInt(int64(900000 + i)), NoKU: leafT.KU == "-", RawSub: leafT.Cert.RawSubject, IsCA: leafT.Cert.IsCA}
 		if leafT.SKI != 0 {
 			lo.SKI = c04SKI(leafT.SKI)
 		}
